@@ -2,7 +2,7 @@
 ENTRY = {'coq_dir': 'C16',
  'coq_deps': ['C15'],
  'harness': 'c16',
- 'cases': {'quick': 2500, 'thorough': 60000},
+ 'cases': {'quick': 6000, 'thorough': 200000},
  'consts': ['PARALLELISM_FACTOR', 'REPLICATION_FACTOR', 'KAD_READ_TIMEOUT_SECS', 'KAD_WRITE_TIMEOUT_SECS'],
  'nontrivial_min_trace': 60,
  'rule': 'the REAL `Kademlia::run` loop (polled by hand, tokio time paused) on a real TransportService fed through its event channel, a '
@@ -34,13 +34,17 @@ ENTRY = {'coq_dir': 'C16',
                'action is reachable through pending_substreams (histories in which the service reports opened substreams for the right '
                'peer); hence when nothing is owed and the engine is drained no query is left, and with query ids drawn from a counter '
                'every started operation has produced exactly one terminal event with its id, never two (terminal events + liveness = '
-               'starts, for every id, after every history). The lookups inside the engine are the C15 model (each engine call is one C15 '
+               'starts, for every id, after every history); every iteration of the drain loop strictly decreases the weight of the '
+               'served query and touches no other query (the drained state is always reached); a PutRecordSuccess / '
+               'AddProviderSuccess is emitted only when executor futures of that operation reported completed sends to at least '
+               'clamp(requested quorum, number of targets) distinct target peers. The lookups inside the engine are the C15 model (each engine call is one C15 '
                'step; C15\'s progress theorem gives the no-deadlock step).',
  'level_note': 'Liveness is relative to the environment discharging its obligations (dial -> Established | DialFailure, open -> Opened | '
                'OpenFailure, executor futures complete within the 15 s read/write timeouts) - these are C05 / C08 / tokio guarantees '
                'taken as given; "bounded time" is a bound in those timeouts, not measured. Not proved in Coq: a global step bound over a '
-               'peer universe (C15\'s measure lifted through the glue), the "exactly one obligation" direction, and quorum honesty (judged '
-               'by prop_ok on every implementation trace only). Not modelled: routing table and store (seed candidates, filtered peer '
+               'peer universe (C15\'s measure lifted through the glue) and the "at most one obligation per (query, peer)" direction; the '
+               'quorum theorem counts completed sends of any future of the operation (a stale FIND_NODE reply of the lookup phase would '
+               'count too; that it cannot hit a target needs C15\'s never-twice argument and is not lifted). Not modelled: routing table and store (seed candidates, filtered peer '
                'lists and the local-record flag are inputs), peer timeout staleness (C15), provider refresh, await points inside a '
                'handler (full event channel).',
  'trusted_base': ['the cfg(verif) probe inside `Kademlia::run` (two add-only statements: one log entry per engine action, one snapshot when '
